@@ -38,8 +38,10 @@ def configs(direction, quick):
         if quick:
             return [("a", (direction, 2, 1, ["VERSION", "COMBOS", "WARPS"], ["CHARTNAME", "COMBOS", "MUSIC"], ["empty", "padded", "other", "warps0"], ["gameplay", "metadata"])),
                     ("after-notes", (direction, 1, 1, ["COMBOS"], ["CHARTNAME", "COMBOS", "BPMS"], ["default", "other"], ["gameplay", "timing"], False))]
+        # (sizes bounded so that the emitted cases fit in memory: every state is replayed)
         return [("a", (direction, 2, 1, ["VERSION", "ORIGIN", "JACKET", "COMBOS", "WARPS"], ["CHARTNAME", "COMBOS", "BPMS", "MUSIC"],
-                       ["empty", "default", "padded", "other"], ["metadata", "gameplay", "timing"])),
+                       ["empty", "default", "padded", "other"], ["gameplay", "timing"])),
+                ("a2", (direction, 2, 1, ["ORIGIN", "COMBOS", "WARPS"], ["CHARTNAME", "COMBOS"], ["padded", "other", "warps0"], ["metadata", "gameplay", "timing"])),
                 ("after-notes", (direction, 1, 2, ["COMBOS"], ["CHARTNAME", "COMBOS", "BPMS", "WARPS"], ["empty", "default", "other"], ["metadata", "gameplay", "timing"], False)),
                 ("b", (direction, 3, 0, ["VERSION", "JACKET", "SCROLLS", "LABELS"], ["CHARTNAME"], ["default", "other"], ["version", "filepath", "gameplay", "metadata"]))]
     if quick:
